@@ -4,6 +4,8 @@
 -/
 import Model.RunLoop
 import Proofs.RunLoop
+import Model.Matcher
+import Proofs.Matcher
 
 namespace Props.C03
 open Model.Scan Model.Run Proofs.Run
@@ -37,5 +39,14 @@ theorem c03_ctx_counts (i : Nat) (endIdx : Option Nat) (st : LoopSt σ) :
     (mkCtx i endIdx false (offer i st)).scanCount = st.scanCount + 1 ∧
     (mkCtx i endIdx false (offer i st)).curMatchCount = st.fl.matchCount ∧
     (mkCtx i endIdx false (offer i st)).idx = i := ⟨rfl, rfl, rfl⟩
+
+/-- same-line dependency: a component is evaluated in the state produced by the effects of the
+    components before it on the same line (so an assignment reads what earlier components of the
+    line wrote) -/
+theorem c03_sameline (env : Model.Interp.Env) (e : Model.Interp.Node) (es : List Model.Interp.Node)
+    (v : Model.Interp.View) (f : Bool) (b : Option String) (hs : v.stopped = false) (hk : v.skip = false) :
+    ∃ f' b', Model.Interp.matchExprs env (e :: es) v f b =
+      Model.Interp.matchExprs env es (Model.Interp.applyAll v (Model.Interp.evalExpr env v e).2.1) f' b' :=
+  ⟨_, _, Proofs.Matcher.matchExprs_step env e es v f b hs hk⟩
 
 end Props.C03
